@@ -66,9 +66,9 @@ structure TunerState (α : Type) where
   phase : Nat
 
 /-- `Tuner(int sample_rate, real_t freq)`: `_periodic{freq == std::floor(freq)}`, `_phase{0}`;
-    `DSPLIB_ASSERT(std::abs(_freq) <= (_fs / 2))` — `_fs / 2` is the INTEGER quotient -/
+    `DSPLIB_ASSERT(std::abs(_freq) <= (_fs / 2.0))` -/
 def tunerInit (fs : Nat) (freq : α) : Except String (TunerState α) :=
-  if Fn.abs freq ≤ Fn.ofNat (fs / 2) then
+  if Fn.abs freq ≤ Fn.ofNat fs / Fn.ofNat 2 then
     .ok ⟨fs, freq, decide (freq ≤ Fn.floor freq ∧ Fn.floor freq ≤ freq), 0⟩
   else .error "tuner freq must be in range (-fs/2 : fs/2)"
 
